@@ -23,7 +23,7 @@ var nearMu sync.Mutex
 type Profile struct{}
 
 type pRoot struct{ Version, Dest, Issuer, Status string }
-type pAs struct{ Issuer, Subject, Conf, Method, Data, Recipient, Noa, Authn string }
+type pAs struct{ Issuer, Subject, Conf, Method, Data, Recipient, Noa, Authn, Advice string }
 type pInput struct {
 	Sigmode string `json:"sigmode"`
 	Doc     struct {
@@ -174,6 +174,11 @@ func (Profile) Run(c *orch.Case) *orch.Outcome {
 		spec.ID = fmt.Sprintf("_assert-p%d", i+1)
 		applyAsFaults(spec, af)
 		el := b.AssertionEl(spec, false)
+		if af.Advice == "nested" {
+			ev := world.Content("GA2")
+			ev.ID = fmt.Sprintf("_evidence-p%d", i+1)
+			b.AdviceInto(el, ownSigned(b, w, ev, true))
+		}
 		root.AddChild(el)
 		els = append(els, el)
 	}
